@@ -90,7 +90,9 @@ func parseChain(c chainDoc) string {
 			case strings.Contains(e, "resolve") || strings.Contains(e, "not found") || strings.Contains(e, "find"):
 				return "err:missing"
 			}
-			return "err:other:" + e
+			// an error of a wording this harness does not know: the kind of an error is not part of the
+			// property (only when one may occur), so the line is not compared with the model
+			return "err:unknown:" + e
 		}
 		var out []string
 		for _, op := range api.Operations {
@@ -205,7 +207,9 @@ func c07(r *lp.Run) {
 			}
 		}
 		branch := strings.SplitN(out, " ", 2)[0]
-		if orderFree {
+		if strings.HasPrefix(out, "err:unknown") {
+			r.Count("refs-impl "+c.line(), "chain-error-of-unknown-wording", shared)
+		} else if orderFree {
 			r.Case("refs", c.line(), out, "chain:"+branch, shared)
 		} else {
 			r.Count("refs-impl "+c.line(), "chain-order-dependent:"+branch, shared)
@@ -213,7 +217,7 @@ func c07(r *lp.Run) {
 		// ---- the property on the implementation ----
 		r.PropCheck()
 		in := map[string]any{"document": c.doc(), "depth_limit": c.depth}
-		if out == "panic" || strings.HasPrefix(out, "err:other") || strings.HasPrefix(out, "spec-err") {
+		if out == "panic" || strings.HasPrefix(out, "spec-err") {
 			r.Fail(lp.PropFail{Property: "C07", What: "unexpected outcome of reference resolution", Input: in, Observed: out, Expected: "resolved headers or a missing/cycle/depth error"})
 			continue
 		}
